@@ -91,7 +91,7 @@ def is_case_start(line):
     if not m:
         return False
     return m.group(1) not in ("ret", "panic", "probe", "equal", "delete", "insert",
-                              "replace", "finish", "step")
+                              "replace", "finish", "step", "drift")
 
 
 def split_trace(path, outdir, max_lines):
